@@ -222,6 +222,10 @@ static void xml_reporter_start_test(TestReporter *reporter, const char *testname
     output = strdup("");
 
     child_output_tmpfile = tmpfile();
+    if (child_output_tmpfile == NULL) {
+        fprintf(stderr, "could not create a temporary file for the results of %s\n", testname);
+        exit(EXIT_FAILURE);
+    }
 }
 
 
